@@ -33,7 +33,7 @@ struct World {
 	std::string Spath;
 	std::vector<uint8_t> volBytes, clmBytes;
 	std::string volPath, clmPath;
-	std::unique_ptr<Archive::VolFile> vol; std::unique_ptr<Archive::ClmFile> clm;
+	std::unique_ptr<Archive::VolFile> vol; std::unique_ptr<Archive::ClmFile> clm; bool hadVol = false, hadClm = false;
 	std::vector<refvol::Member> volMembers; std::vector<refvol::Extent> volExt;
 	std::vector<refclm::Track> clmTracks; std::vector<refclm::Extent> clmExt;
 	std::vector<Node> nodes;
@@ -157,11 +157,16 @@ void do_copy(World& w, size_t ti) {
 
 void archive_op(World& w, uint8_t sel, uint64_t raw) {
 	bool useVol = (sel & 1) == 0;
+	if ((sel >> 1) % 5 == 4) {   // the archive object goes away (or comes back): streams opened from it own their file handle and must not notice
+		if (raw % 3 == 0) { if (useVol && w.vol) { w.vol.reset(); if (w.tracing) w.trace += "vol.destroy;"; } else if (!useVol && w.clm) { w.clm.reset(); if (w.tracing) w.trace += "clm.destroy;"; } }
+		else { if (useVol && !w.vol && !w.volPath.empty() && w.hadVol) { w.vol = std::make_unique<Archive::VolFile>(w.volPath); if (w.tracing) w.trace += "vol.reopen;"; } else if (!useVol && !w.clm && !w.clmPath.empty() && w.hadClm) { w.clm = std::make_unique<Archive::ClmFile>(w.clmPath); if (w.tracing) w.trace += "clm.reopen;"; } }
+		return;
+	}
 	if (useVol && !w.vol) useVol = false;
 	if (!useVol && !w.clm) { if (w.vol) useVol = true; else return; }
 	size_t count = useVol ? w.volMembers.size() : w.clmTracks.size();
 	size_t i = count ? raw % (count + 1) : 0;   // count itself = out of range
-	unsigned what = (sel >> 1) % 4;
+	unsigned what = (sel >> 1) % 5;
 	Archive::ArchiveFile* ar = useVol ? static_cast<Archive::ArchiveFile*>(w.vol.get()) : w.clm.get();
 	if (w.tracing) w.trace += std::string(useVol ? "vol." : "clm.") + (what == 0 ? "GetName" : what == 1 ? "OpenStream" : what == 2 ? "ExtractFile" : "GetSize") + "(" + std::to_string(i) + ");";
 	if (i >= count) {
@@ -288,14 +293,14 @@ void run_forest(const Decoded& d, Stats& st, bool tracing) {
 	if (d.withVol) {
 		w.volMembers = d.vm; w.volBytes = refvol::encode(d.vm, refvol::EncodeOpts(), &w.volExt);
 		w.volPath = scratch_path("c13.vol"); write_file(w.volPath, w.volBytes);
-		w.vol = std::make_unique<Archive::VolFile>(w.volPath);
+		w.vol = std::make_unique<Archive::VolFile>(w.volPath); w.hadVol = true;
 		V_CHECK(w.vol->GetCount() == d.vm.size(), "reference-encoded VOL opened with " << w.vol->GetCount() << " members, expected " << d.vm.size());
 	}
 	if (d.withClm) {
 		w.clmTracks = d.ct; refclm::WaveFormat f{1, 1, 22050, 44100, 2, 16};
 		w.clmBytes = refclm::encode(f, d.ct, &w.clmExt);
 		w.clmPath = scratch_path("c13.clm"); write_file(w.clmPath, w.clmBytes);
-		w.clm = std::make_unique<Archive::ClmFile>(w.clmPath);
+		w.clm = std::make_unique<Archive::ClmFile>(w.clmPath); w.hadClm = true;
 		V_CHECK(w.clm->GetCount() == d.ct.size(), "reference-encoded CLM opened with wrong member count");
 	}
 	check_all(w, "initial");
